@@ -42,8 +42,10 @@ RULE = ("single code points: every scalar value U+0000..U+10FFFF (thorough) / al
         "thorough: every length up to 300, every 7th beyond) pure and mixed with text / whitespace / non-ASCII / entity fragments, for every filter and "
         "the handler; decode.<enc>: histories of (lookup decode.<enc_i> | call closure j on str/bytes/object) - all ordered "
         "pairs of charsets with both call orders and interleaved lookups + random histories of 2-9 operations, vs the "
-        "closure-per-lookup model (utf8/latin1/ascii) and vs bytes.decode (8 charsets), plus nested renders and a "
-        "deterministic two-thread interleaving; a case is non-trivial when the filter changes the text (or the decoder "
+        "closure-per-lookup model (utf8/latin1/ascii) and vs bytes.decode (8 charsets), the argument also a non-str/bytes value "
+        "(True/1/1.0, False/0/0.0, Decimal, unhashable containers, bytearray, None ...) or one object whose str() changes "
+        "between calls (str(x) is taken at call time), plus nested renders, a deterministic two-thread interleaving and "
+        "object runs through `| decode.utf8`, `| n, decode.utf8`, default_filters; a case is non-trivial when the filter changes the text (or the decoder "
         "finds a reference); distinct = distinct (filter, input) pairs")
 ASSUMPTIONS = [
     "strings with lone surrogates are outside the domain (Lean's Char is the Unicode scalar values); the one place "
@@ -162,8 +164,41 @@ class StrObj:
         return self.s
 
 
+class MutObj:
+    """a hashable object (by identity) whose str() is whatever was last assigned: str(x) must be taken at call time"""
+
+    def __init__(self):
+        self.s = ""
+
+    def __str__(self):
+        return self.s
+
+
+def make_value(name):
+    """a fresh non-str, non-bytes Python value by name (equal-but-differently-printing, unhashable, buffer types)"""
+    import decimal
+    import fractions
+    return {
+        "True": lambda: True, "1": lambda: 1, "1.0": lambda: 1.0, "False": lambda: False, "0": lambda: 0, "0.0": lambda: 0.0,
+        "Decimal1": lambda: decimal.Decimal("1"), "Decimal1.0": lambda: decimal.Decimal("1.0"),
+        "Fraction1": lambda: fractions.Fraction(1), "1j0": lambda: complex(1, 0), "-0.0": lambda: -0.0,
+        "None": lambda: None, "list": lambda: [1, "a"], "dict": lambda: {"a": 1}, "set": lambda: {1},
+        "tuple": lambda: ("x",), "tuple1": lambda: (1,), "tuple1.0": lambda: (1.0,), "bytearray": lambda: bytearray(b"ab\xc3\xa9"),
+        "big": lambda: 10 ** 30, "1.5": lambda: 1.5, "frozenset": lambda: frozenset([1]), "listlist": lambda: [[1], {"k": [2]}],
+        "range": lambda: range(3), "ellipsis": lambda: Ellipsis,
+    }[name]()
+
+
+VALUE_NAMES = ["True", "1", "1.0", "False", "0", "0.0", "Decimal1", "Decimal1.0", "Fraction1", "1j0", "-0.0", "None", "list", "dict",
+               "set", "tuple", "tuple1", "tuple1.0", "bytearray", "big", "1.5", "frozenset", "listlist", "range", "ellipsis"]
+VALUE_RUNS = [["True", "1", "1.0"], ["1.0", "1", "True"], ["False", "0", "0.0"], ["0.0", "False"], ["1", "1.0", "Decimal1"],
+              ["Decimal1", "Decimal1.0", "Fraction1", "1j0", "1"], ["0.0", "-0.0"], ["tuple1", "tuple1.0"], ["list"], ["dict"], ["set"],
+              ["bytearray"], ["listlist"], ["None", "None"], ["big", "1.5", "frozenset", "range", "ellipsis", "tuple"]]
+
+
 def decode_families(encs):
-    """two closures for different charsets held at once and called in both orders; interleaved lookups"""
+    """two closures for different charsets held at once and called in both orders; interleaved lookups; one closure
+    called on equal-but-differently-printing values, on unhashable values, on an object whose str() changes"""
     fams = []
     for e1 in encs:
         for e2 in encs:
@@ -174,6 +209,11 @@ def decode_families(encs):
                 fams.append([["L", 0, e1], ["C", 0] + x, ["L", 1, e2], ["C", 0] + x, ["C", 1] + x, ["C", 0] + x])
             fams.append([["L", 0, e1], ["L", 1, e2], ["C", 0, "str", "\u00e9"], ["C", 0, "other", "o\u00e9"],
                          ["C", 0, "bytes", "c3a9"]])
+        for run in VALUE_RUNS:
+            fams.append([["L", 0, e1]] + [["C", 0, "val", v] for v in run])
+            fams.append([["L", 0, e1], ["L", 1, e1]] + [["C", i % 2, "val", v] for i, v in enumerate(run + run)])
+        fams.append([["L", 0, e1], ["C", 0, "obj", 0, "first"], ["C", 0, "obj", 0, "second"], ["C", 0, "obj", 1, "third"],
+                     ["C", 0, "obj", 0, "first"]])
     return fams
 
 
@@ -181,44 +221,78 @@ def random_decode_ops(rng, encs):
     ops = []
     n = 0
     for _ in range(rng.randint(2, 9)):
-        if n == 0 or rng.random() < 0.4:
+        if n == 0 or rng.random() < 0.35:
             ops.append(["L", n, rng.choice(encs)])
             n += 1
         else:
-            kind = rng.choice(["bytes", "bytes", "bytes", "str", "other"])
-            payload = rng.choice(DECODE_BYTES) if kind == "bytes" else rng.choice(["", "a", "\u00e9<", "\u4e16"])
-            ops.append(["C", rng.randrange(n), kind, payload])
+            kind = rng.choice(["bytes", "bytes", "bytes", "str", "other", "val", "val", "obj"])
+            if kind == "bytes":
+                ops.append(["C", rng.randrange(n), kind, rng.choice(DECODE_BYTES)])
+            elif kind == "val":
+                ops.append(["C", rng.randrange(n), kind, rng.choice(VALUE_NAMES)])
+            elif kind == "obj":
+                ops.append(["C", rng.randrange(n), kind, rng.randrange(2), rng.choice(["a", "b", "\u00e9", ""])])
+            else:
+                ops.append(["C", rng.randrange(n), kind, rng.choice(["", "a", "\u00e9<", "\u4e16"])])
     return ops
 
 
-def ops_value(kind, payload):
+def op_value(op, objs):
+    """the Python argument of a call op; `objs`: the mutable objects of this history by id"""
+    kind = op[2]
     if kind == "bytes":
-        return bytes.fromhex(payload)
-    return payload if kind == "str" else StrObj(payload)
+        return bytes.fromhex(op[3])
+    if kind == "str":
+        return op[3]
+    if kind == "other":
+        return StrObj(op[3])
+    if kind == "val":
+        return make_value(op[3])
+    o = objs.setdefault(op[3], MutObj())          # "obj": the same object again, printing differently now
+    o.s = op[4]
+    return o
+
+
+def op_text(op):
+    """what str(x) is for the argument of a non-bytes call op, at the time of the call"""
+    kind = op[2]
+    if kind == "val":
+        return str(make_value(op[3]))
+    if kind == "obj":
+        return op[4]
+    return op[3]
 
 
 def run_ops_impl(F, ops):
     """execute a history on the real `filters.decode`; one entry per call: the str returned, or 'raises <Class>'"""
     held = {}
+    objs = {}
     res = []
     for op in ops:
         if op[0] == "L":
-            held[op[1]] = getattr(F.decode, op[2])
+            try:
+                held[op[1]] = getattr(F.decode, op[2])
+            except Exception as e:
+                held[op[1]] = e
         else:
             d = held.get(op[1])
             if d is None:
                 res.append("badindex")
                 continue
+            if isinstance(d, Exception):
+                res.append("raises " + type(d).__name__ + " (at lookup)")
+                continue
             try:
-                r = d(ops_value(op[2], op[3]))
-                res.append(r if isinstance(r, str) else "not-a-str %r" % (r,))
+                r = d(op_value(op, objs))
+                res.append(r if type(r) is str else (str(r) if isinstance(r, str) and op[2] == "str" else "not-a-str %r" % (r,)))
             except Exception as e:
                 res.append("raises " + type(e).__name__)
     return res
 
 
 def run_ops_ref(ops):
-    """independent reference: the closure of lookup `label` decodes with the charset of *that* lookup"""
+    """independent reference: the closure of lookup `label` decodes with the charset of *that* lookup; any other
+    object gives str(x) as it is at the time of the call"""
     encs = {}
     res = []
     for op in ops:
@@ -234,7 +308,7 @@ def run_ops_ref(ops):
                 except UnicodeDecodeError:
                     res.append("raises UnicodeDecodeError")
             else:
-                res.append(op[3])
+                res.append(op_text(op))
     return res
 
 
@@ -247,8 +321,9 @@ def ops_request(ops):
             idx[op[1]] = len(idx)
             f += ["L", enc(op[2])]
         else:
-            payload = bytes.fromhex(op[3]).decode("latin-1") if op[2] == "bytes" else op[3]
-            f += ["C", str(idx.get(op[1], 999)), op[2], enc(payload)]
+            payload = bytes.fromhex(op[3]).decode("latin-1") if op[2] == "bytes" else op_text(op)
+            kind = op[2] if op[2] in ("bytes", "str") else "other"      # the model sees str(x) as of this call
+            f += ["C", str(idx.get(op[1], 999)), kind, enc(payload)]
     return " ".join(f)
 
 
@@ -731,6 +806,8 @@ def check_handler(s, cs, encode):
         out = encode(s, cs)
     except UnicodeError as e:
         return "htmlentityreplace-raises", "%s: %s" % (type(e).__name__, e)
+    except Exception as e:
+        return "htmlentityreplace-raises:" + type(e).__name__, "%s: %s" % (type(e).__name__, e)
     if not isinstance(out, bytes):
         return "htmlentityreplace-unfaithful", "result is %s" % type(out).__name__
     try:
@@ -763,13 +840,16 @@ def check_decode_nested(e1, e2, hx1, hx2):
         want1, want2 = b1.decode(e1), b2.decode(e2)
     except UnicodeDecodeError:
         return None
-    inner = Template("${v | n,decode.%s}" % e2)
+    try:
+        inner = Template("${v | n,decode.%s}" % e2)
+        outer = Template("[${fragment()}]", default_filters=["decode." + e1])
+    except Exception as e:
+        return "compiling the templates raised %s: %s" % (type(e).__name__, e)
     seen = []
 
     def fragment():
         seen.append(inner.render(v=b2))
         return b1
-    outer = Template("[${fragment()}]", default_filters=["decode." + e1])
     try:
         out = outer.render(fragment=fragment)
     except Exception as e:
@@ -795,14 +875,22 @@ def check_decode_threads(F, e1, e2, hx):
             return "raises " + type(e).__name__
 
     def t1():
-        d = getattr(F.decode, e1)
+        try:
+            d = getattr(F.decode, e1)
+        except Exception as e:
+            res[1] = "raises %s (at lookup)" % type(e).__name__
+            ev1.set()
+            return
         ev1.set()
         ev2.wait(10)
         res[1] = call(d)
 
     def t2():
         ev1.wait(10)
-        res[2] = call(getattr(F.decode, e2))
+        try:
+            res[2] = call(getattr(F.decode, e2))
+        except Exception as e:
+            res[2] = "raises %s (at lookup)" % type(e).__name__
         ev2.set()
     a, c = threading.Thread(target=t1), threading.Thread(target=t2)
     a.start(); c.start(); a.join(20); c.join(20)
@@ -843,140 +931,233 @@ def oracle_decode_state(ctx, rep, F):
                                                       "e1": e1, "e2": e2, "bytes1": "c3a9"}, bad, "oracle.decode.threads")
 
 
+DECODE_WAYS = ["call", "filter", "filter-n", "default_filters"]
+
+
+def decode_way(F, way):
+    """x -> text, through one of the ways generated code reaches decode.utf8"""
+    from mako.template import Template
+    if way == "call":
+        return lambda x: F.decode.utf8(x)
+    src, kw = {"filter": ("${x | decode.utf8}", {}), "filter-n": ("${x | n, decode.utf8}", {}),
+               "default_filters": ("${x}", {"default_filters": ["decode.utf8"]})}[way]
+    t = Template(src, **kw)
+    return lambda x: t.render(x=x)
+
+
+def check_decode_objects(F, way, seq):
+    """`seq`: value names, or ["mut", text] = the one mutable object of this run printing `text` now.  Each must come
+    out as str(x) taken at the time of the call.  -> None | (site, detail)"""
+    try:
+        f = decode_way(F, way)
+    except Exception as e:
+        return "decode-object-raises:" + type(e).__name__, "setting up %s raised %s: %s" % (way, type(e).__name__, e)
+    mut = MutObj()
+    for i, item in enumerate(seq):
+        if isinstance(item, str):
+            x = make_value(item)
+        else:
+            x = mut
+            mut.s = item[1]
+        want = str(x)
+        try:
+            got = f(x)
+        except Exception as e:
+            return ("decode-object-raises:" + type(e).__name__,
+                    "decode.utf8 via %s raised %s: %s on item #%d = %r" % (way, type(e).__name__, e, i, item))
+        if not isinstance(got, str) or str(got) != want:
+            return "decode-object", "decode.utf8 via %s returned %r for item #%d = %r, str(x) at that time is %r" % (way, got, i, item, want)
+    return None
+
+
+def oracle_decode_objects(ctx, rep, F):
+    """non-str, non-bytes arguments: unhashable containers, buffer types, equal-but-differently-printing values in a row,
+    an object whose str() changes between calls - explicit call, `| decode.utf8`, `| n, decode.utf8`, default_filters"""
+    from harness.common import ddmin
+    st = ctx.stream("oracle.decode.objects", "oracle")
+    seqs = [list(r) for r in VALUE_RUNS] + [[v] for v in VALUE_NAMES] + [[v, v] for v in VALUE_NAMES]
+    seqs += [[["mut", "first"], ["mut", "second"]], [["mut", "a"], "1", ["mut", "b"], ["mut", "a"]],
+             ["True", ["mut", "x"], "1.0", ["mut", "y"]]]
+    for _ in range(300 if ctx.quick else 3000):
+        seqs.append([ctx.rng.choice(VALUE_NAMES) if ctx.rng.random() < 0.8 else ["mut", ctx.rng.choice("abc")]
+                     for _ in range(ctx.rng.randint(2, 6))])
+    for way in DECODE_WAYS:
+        for seq in seqs:
+            st["cases"] += 1
+            bad = check_decode_objects(F, way, seq)
+            if bad:
+                site = bad[0]
+                small = ddmin(seq, lambda sub: bool(sub) and (check_decode_objects(F, way, sub) or ("", ""))[0] == site, 200)
+                b2 = check_decode_objects(F, way, small) or bad
+                rep.report(b2[0], {"input": json.dumps(small), "values": small, "way": way, "filter": "decode", "via": "objects"},
+                           b2[1], "oracle.decode.objects")
+            ctx.branch("decode:objects:" + way)
+    # buffer objects whose str() carries an address: compared on the same object
+    for way in DECODE_WAYS:
+        st["cases"] += 1
+        try:
+            x = memoryview(b"ab")
+            got = decode_way(F, way)(x)
+            if got != str(x):
+                rep.report("decode-object", {"input": "memoryview(b'ab')", "way": way, "filter": "decode", "via": "memoryview"},
+                           "returned %r, str(x) is %r" % (got, str(x)), "oracle.decode.objects")
+        except Exception as e:
+            rep.report("decode-object-raises:" + type(e).__name__, {"input": "memoryview(b'ab')", "way": way, "filter": "decode",
+                                                                    "via": "memoryview"}, "%s: %s" % (type(e).__name__, e),
+                       "oracle.decode.objects")
+
+
 def oracle(ctx, impl, cps, shorts, rnd, dense):
+    """Every call into the implementation is guarded: an exception escaping from mako is a finding
+    (site `<site>-raises:<Class>`, shrunk input), never a crash of the oracle.  Sections are independent: a defect of
+    the harness itself in one section is recorded as a broken tie and the other sections still run."""
     rep = Reporter(ctx)
     F = impl.filters
     texts = [chr(c) for c in cps] + shorts + dense + rnd
     single = len(cps)
+    full = not ctx.quick
     ctx.log("oracle: %d texts (%d single code points, %d short, %d dense up to %d chars, %d random)"
             % (len(texts), single, len(shorts), len(dense), max(map(len, dense)), len(rnd)))
+
+    def guarded(f, check, s):
+        """-> None | (site suffix, detail)"""
+        try:
+            out = f(s)
+        except Exception as e:
+            return "-raises:" + type(e).__name__, "raised %s: %s" % (type(e).__name__, e)
+        bad = check(out, s)
+        return ("", bad) if bad else None
+
+    def run_one(stream, site, f, check, s, case_extra=None, shrink=True):
+        r = guarded(f, check, s)
+        if r:
+            suffix, detail = r
+
+            def still(t):
+                r2 = guarded(f, check, t)
+                return r2 is not None and r2[0] == suffix
+            case = {"input": s, "filter": stream.split(".")[-1]}
+            case.update(case_extra or {})
+            rep.report(site + suffix, case, detail, stream, still if shrink else None)
 
     def sweep(stream, site, f, check, exhaustive):
         st = ctx.stream(stream, "oracle", exhaustive)
         for s in texts:
-            try:
-                out = f(s)
-                bad = check(out, s)
-            except Exception as e:   # a filter must not raise on a str
-                bad = "raised %s: %s" % (type(e).__name__, e)
-            if bad:
-                def still(t, f=f, check=check):
-                    try:
-                        return check(f(t), t) is not None
-                    except Exception:
-                        return True
-                rep.report(site, {"input": s, "filter": stream.split(".")[-1]}, bad, stream, still)
+            run_one(stream, site, f, check, s)
         st["cases"] += len(texts)
-    full = not ctx.quick
-    sweep("oracle.markup.x", "x-markup", F.xml_escape, check_markup, full)
-    sweep("oracle.markup.h", "h-markup", lambda s: str(F.html_escape(s)), check_markup, full)
-    sweep("oracle.url.u", "u-url", F.url_escape, check_url, full)
-    sweep("oracle.entity", "entity-exact", F.html_entities_escape,
-          lambda out, s: check_entity(out, s, F.html_entities_unescape), full)
-    sweep("oracle.trim", "trim-edges", F.trim, check_trim, full)
-    # trim with the character at the edges
-    st = ctx.stream("oracle.trim.edges", "oracle", full)
-    for c in cps:
-        ch = chr(c)
-        s = ch + "a" + ch + " b" + ch
-        bad = check_trim(F.trim(s), s)
-        if bad:
-            rep.report("trim-edges", {"input": s, "filter": "trim"}, bad, "oracle.trim.edges")
-    st["cases"] += len(cps)
 
-    # decode -----------------------------------------------------------------------------------------------
-    st = ctx.stream("oracle.decode", "oracle")
+    def sec_filters():
+        sweep("oracle.markup.x", "x-markup", F.xml_escape, check_markup, full)
+        sweep("oracle.markup.h", "h-markup", lambda s: str(F.html_escape(s)), check_markup, full)
+        sweep("oracle.url.u", "u-url", F.url_escape, check_url, full)
+        sweep("oracle.entity", "entity-exact", F.html_entities_escape,
+              lambda out, s: check_entity(out, s, F.html_entities_unescape), full)
+        sweep("oracle.trim", "trim-edges", F.trim, check_trim, full)
+        st = ctx.stream("oracle.trim.edges", "oracle", full)      # the character at the edges
+        for c in cps:
+            ch = chr(c)
+            run_one("oracle.trim.edges", "trim-edges", F.trim, check_trim, ch + "a" + ch + " b" + ch, {"filter": "trim"})
+        st["cases"] += len(cps)
 
-    class Obj:
-        def __init__(self, s):
-            self.s = s
+    def sec_decode_values():
+        st = ctx.stream("oracle.decode", "oracle")
+        for s in (shorts[:3000] + rnd[:3000]):
+            for encname in ("utf8", "utf_16", "latin1"):
+                name = "decode." + encname
 
-        def __str__(self):
-            return self.s
-    for s in (shorts[:3000] + rnd[:3000]):
-        for encname in ("utf8", "utf_16", "latin1"):
-            d = getattr(F.decode, encname)
-            r1 = d(s)
-            if type(r1) is not str or r1 != s:
-                rep.report("decode-str", {"input": s, "filter": "decode." + encname}, "decode(str) is not the str", "oracle.decode")
-            try:
-                b = s.encode(encname)
-            except UnicodeEncodeError:
-                b = None
-            if b is not None:
-                r2 = d(b)
-                if type(r2) is not str or r2 != s:
-                    rep.report("decode-bytes", {"input": s, "filter": "decode." + encname}, "decode(bytes) is not the decoded text",
-                               "oracle.decode")
-            for o in (Obj(s), impl.markupsafe.Markup(s)):
-                r3 = d(o)
-                if not isinstance(r3, str) or str(r3) != s:
-                    rep.report("decode-object", {"input": s, "filter": "decode." + encname}, "decode(object) is not str(object)",
-                               "oracle.decode")
-            st["cases"] += 3
-    for o in (0, 1.5, None, True, [1], {"a": 1}, ("x",), 10 ** 30):
-        r = F.decode.utf8(o)
-        st["cases"] += 1
-        if type(r) is not str or r != str(o):
-            rep.report("decode-object", {"input": repr(o), "filter": "decode.utf8"}, "decode(object) is not str(object)", "oracle.decode")
+                def dcall(x, encname=encname):
+                    return getattr(F.decode, encname)(x)
+                run_one("oracle.decode", "decode-str", dcall,
+                        lambda out, s_: None if (type(out) is str and out == s_) else "decode(str) is not the str", s, {"filter": name})
+                try:
+                    b = s.encode(encname)
+                except UnicodeEncodeError:
+                    b = None
+                if b is not None:
+                    run_one("oracle.decode", "decode-bytes", lambda s_, b=b: dcall(b),
+                            lambda out, s_: None if (type(out) is str and out == s_) else "decode(bytes) is not the decoded text", s,
+                            {"filter": name}, shrink=False)
+                for mk in (StrObj, impl.markupsafe.Markup):
+                    run_one("oracle.decode", "decode-object", lambda s_, mk=mk: dcall(mk(s_)),
+                            lambda out, s_: None if (isinstance(out, str) and str(out) == s_) else "decode(object) is not str(object)", s,
+                            {"filter": name})
+                st["cases"] += 4
 
-    oracle_decode_state(ctx, rep, F)
-
-    # the error handler ------------------------------------------------------------------------------------------
-    st = ctx.stream("oracle.handler", "oracle", full)
-    enc_f = lambda s, cs: s.encode(cs, "htmlentityreplace")
-    # the documented example first
-    doc = ("The cost was \u20ac12.", "latin1")
-    for s, cs in [doc, ("\u20ac", "latin-1")] + list(handler_cases(ctx, cps, rnd)):
-        st["cases"] += 1
-        bad = check_handler(s, cs, enc_f)
-        if bad:
-            site, detail = bad
-            if len(s) == 4 and s[0] == "a" and s[3] == "<" and s[1] == s[2]:
-                s = s[1]     # the per-code-point text 'a'+c+c+'<': the single character is the minimal input
-                if check_handler(s, cs, enc_f) is None:
-                    s = s + s
-            rep.report(site, {"input": s, "charset": cs, "filter": "htmlentityreplace"}, detail, "oracle.handler",
-                       lambda t, cs=cs: check_handler(t, cs, enc_f) is not None)
-    named = sum(1 for c in cps if c >= 128 and c in html.entities.codepoint2name)
-    ctx.branch("handler:codepoints-with-named-entity", named)
-    ctx.branch("handler:codepoints-numeric-reference", sum(1 for c in cps if c >= 128) - named)
-
-    # through real templates (DEFAULT_ESCAPES names, FastEncodingBuffer) -----------------------------------------
-    from mako.template import Template
-    st = ctx.stream("oracle.render", "oracle")
-    tpls = {
-        "x": (Template("${v | x}"), check_markup),
-        "h": (Template("${v | h}"), check_markup),
-        "u": (Template("${v | u}"), check_url),
-        "entity": (Template("${v | entity}"), lambda out, s: check_entity(out, s, F.html_entities_unescape)),
-        "trim": (Template("${v | trim}"), check_trim),
-        "decode": (Template("${v | n,decode.utf8}"), lambda out, s: None if out == s else "decode.utf8 changed a str"),
-    }
-    sub = [chr(c) for c in cps[:: max(1, len(cps) // 3000)]] + shorts[:: 5] + rnd[:2000]
-    for name, (t, check) in tpls.items():
-        for s in sub:
+    def sec_handler():
+        st = ctx.stream("oracle.handler", "oracle", full)
+        enc_f = lambda s, cs: s.encode(cs, "htmlentityreplace")
+        doc = ("The cost was \u20ac12.", "latin1")        # the documented example first
+        for s, cs in [doc, ("\u20ac", "latin-1")] + list(handler_cases(ctx, cps, rnd)):
             st["cases"] += 1
-            out = t.render(v=s)
-            bad = check(out, s)
-            if bad:
-                rep.report({"x": "x-markup", "h": "h-markup", "u": "u-url", "entity": "entity-exact", "trim": "trim-edges",
-                            "decode": "decode-str"}[name], {"input": s, "filter": name, "via": "template"}, bad, "oracle.render")
-    for cs in CHARSETS:
-        t = Template("${v}", output_encoding=cs, encoding_errors="htmlentityreplace")
-        render = lambda s, cs_, t=t: t.render(v=s)
-        for s in sub[:: 2]:
-            st["cases"] += 1
-            bad = check_handler(s, cs, render)
+            bad = check_handler(s, cs, enc_f)
             if bad:
                 site, detail = bad
-                rep.report(site, {"input": s, "charset": cs, "filter": "htmlentityreplace", "via": "template"}, detail, "oracle.render",
-                           lambda t_, cs=cs, render=render: check_handler(t_, cs, render) is not None)
+                if len(s) == 4 and s[0] == "a" and s[3] == "<" and s[1] == s[2]:
+                    s = s[1]     # the per-code-point text 'a'+c+c+'<': the single character is the minimal input
+                    if check_handler(s, cs, enc_f) is None:
+                        s = s + s
+                rep.report(site, {"input": s, "charset": cs, "filter": "htmlentityreplace"}, detail, "oracle.handler",
+                           lambda t, cs=cs: check_handler(t, cs, enc_f) is not None)
+        named = sum(1 for c in cps if c >= 128 and c in html.entities.codepoint2name)
+        ctx.branch("handler:codepoints-with-named-entity", named)
+        ctx.branch("handler:codepoints-numeric-reference", sum(1 for c in cps if c >= 128) - named)
+
+    def sec_render():
+        # through real templates (DEFAULT_ESCAPES names, FastEncodingBuffer)
+        from mako.template import Template
+        st = ctx.stream("oracle.render", "oracle")
+        specs = {
+            "x": ("${v | x}", check_markup, "x-markup"),
+            "h": ("${v | h}", check_markup, "h-markup"),
+            "u": ("${v | u}", check_url, "u-url"),
+            "entity": ("${v | entity}", lambda out, s: check_entity(out, s, F.html_entities_unescape), "entity-exact"),
+            "trim": ("${v | trim}", check_trim, "trim-edges"),
+            "decode": ("${v | n,decode.utf8}", lambda out, s: None if out == s else "decode.utf8 changed a str", "decode-str"),
+        }
+        sub = [chr(c) for c in cps[:: max(1, len(cps) // 3000)]] + shorts[:: 5] + rnd[:2000] + dense[:: 9]
+        for name, (src, check, site) in specs.items():
+            try:
+                t = Template(src)
+            except Exception as e:
+                rep.report(site + "-raises:" + type(e).__name__, {"input": src, "filter": name, "via": "template"},
+                           "compiling %r raised %s: %s" % (src, type(e).__name__, e), "oracle.render")
+                continue
+            for s in sub:
+                st["cases"] += 1
+                run_one("oracle.render", site, lambda s_, t=t: t.render(v=s_), check, s, {"filter": name, "via": "template"})
+        for cs in CHARSETS:
+            try:
+                t = Template("${v}", output_encoding=cs, encoding_errors="htmlentityreplace")
+            except Exception as e:
+                rep.report("htmlentityreplace-raises:" + type(e).__name__, {"input": cs, "charset": cs, "filter": "htmlentityreplace",
+                                                                            "via": "template"}, str(e), "oracle.render")
+                continue
+            render = lambda s, cs_, t=t: t.render(v=s)
+            for s in sub[:: 2]:
+                st["cases"] += 1
+                bad = check_handler(s, cs, render)
+                if bad:
+                    site, detail = bad
+                    rep.report(site, {"input": s, "charset": cs, "filter": "htmlentityreplace", "via": "template"}, detail,
+                               "oracle.render", lambda t_, cs=cs, render=render: check_handler(t_, cs, render) is not None)
+
+    def sec_samples():
+        ctx.sample({"stream": "oracle.markup.x", "input": "<a href=\"x\">'&'</a>", "output": F.xml_escape("<a href=\"x\">'&'</a>")})
+        ctx.sample({"stream": "oracle.url.u", "input": "a b/\u00e9", "output": F.url_escape("a b/\u00e9")})
+        ctx.sample({"stream": "oracle.handler", "input": "\u20ac", "charset": "latin-1",
+                    "output": repr("\u20ac".encode("latin-1", "htmlentityreplace"))})
+
+    sections = [("filters", sec_filters), ("decode-values", sec_decode_values),
+                ("decode-objects", lambda: oracle_decode_objects(ctx, rep, F)),
+                ("decode-state", lambda: oracle_decode_state(ctx, rep, F)),
+                ("handler", sec_handler), ("render", sec_render), ("samples", sec_samples)]
+    for name, sec in sections:
+        try:
+            sec()
+        except Exception:
+            ctx.broke("oracle:harness-exception:" + name, traceback.format_exc())
+            ctx.log("oracle section %s crashed (recorded as a broken tie; the other sections still run)" % name)
     rep.finish()
-    ctx.sample({"stream": "oracle.markup.x", "input": "<a href=\"x\">'&'</a>", "output": F.xml_escape("<a href=\"x\">'&'</a>")})
-    ctx.sample({"stream": "oracle.url.u", "input": "a b/\u00e9", "output": F.url_escape("a b/\u00e9")})
-    ctx.sample({"stream": "oracle.handler", "input": "\u20ac", "charset": "latin-1",
-                "output": repr("\u20ac".encode("latin-1", "htmlentityreplace"))})
 
 
 def run(ctx):
@@ -1113,6 +1294,19 @@ def replay(ctx, data):
         r = check_decode_ops(F, ops)
         print("oracle        :", r or "holds")
         return r is None
+    if name == "decode" and case.get("via") == "objects":
+        r = check_decode_objects(F, case["way"], case["values"])
+        print("implementation: decode.utf8 via %s on %r" % (case["way"], case["values"]))
+        print("oracle        :", r or "holds")
+        return r is None
+    if name == "decode" and case.get("via") == "memoryview":
+        try:
+            x = memoryview(b"ab")
+            ok = decode_way(F, case["way"])(x) == str(x)
+        except Exception as e:
+            print("raised", type(e).__name__, e)
+            ok = False
+        return ok
     if name == "decode" and case.get("via") == "nested-render":
         r = check_decode_nested(case["e1"], case["e2"], case["bytes1"], case["bytes2"])
         print("oracle        :", r or "holds")
